@@ -24,6 +24,9 @@ use std::collections::HashMap;
 pub struct Ids<'a> {
     map: HashMap<usize, usize>,
     pub all: Vec<BddPtr<'a>>,
+    /// label -> variable of the recorded (compact) universe, when the builder works over a wider label space; a label outside the
+    /// embedding is logged as 900 + label (no specification accepts it)
+    pub unlab: Option<HashMap<usize, usize>>,
 }
 
 impl<'a> Ids<'a> {
@@ -31,6 +34,13 @@ impl<'a> Ids<'a> {
         Ids {
             map: HashMap::new(),
             all: vec![],
+            unlab: None,
+        }
+    }
+    fn var_of(&self, label: usize) -> usize {
+        match &self.unlab {
+            None => label,
+            Some(m) => m.get(&label).copied().unwrap_or(900 + label),
         }
     }
     /// encode a pointer (0 = True, 1 = False, 2*id + compl), dumping unseen nodes into `newn`
@@ -48,7 +58,7 @@ impl<'a> Ids<'a> {
                     let id = self.map.len() + 1;
                     self.map.insert(addr, id);
                     self.all.push(BddPtr::Reg(n));
-                    newn.push(json!([id, n.var.value_usize(), lo, hi]));
+                    newn.push(json!([id, self.var_of(n.var.value_usize()), lo, hi]));
                     id
                 };
                 2 * id + if matches!(p, BddPtr::Compl(_)) { 1 } else { 0 }
@@ -67,7 +77,7 @@ impl<'a> Ids<'a> {
             let mut dummy = vec![];
             let lo = self.ptr(n.low, &mut dummy);
             let hi = self.ptr(n.high, &mut dummy);
-            out.push(json!([id, n.var.value_usize(), lo, hi]));
+            out.push(json!([id, self.var_of(n.var.value_usize()), lo, hi]));
             self.redump(n.low, seen, out);
             self.redump(n.high, seen, out);
         }
